@@ -3,6 +3,7 @@ package main
 import (
 	"fmt"
 	"net/url"
+	"reflect"
 	"regexp"
 	"strings"
 	"unicode/utf16"
@@ -296,9 +297,9 @@ func (r *c17Runner) checkP(c *C, filter, in, pstr string) bool {
 	}
 	if filter == "safe" {
 		// safe must also leave non-strings alone
-		for _, x := range []any{42, 1.5, true, nil} {
+		for _, x := range []any{42, 1.5, true, nil, []int{1, 2}, map[string]int{"a": 1}, struct{ A int }{3}, []any{"x", 2}} {
 			sv, _ := pongo2.ApplyFilter("safe", pongo2.AsValue(x), nil)
-			if sv == nil || sv.String() != pongo2.AsValue(x).String() {
+			if sv == nil || sv.String() != pongo2.AsValue(x).String() || !reflect.DeepEqual(sv.Interface(), x) {
 				c.Fail("promise-broken", D{"filter": "safe", "input": fmt.Sprint(x), "why": "safe altered a non-string"})
 				return false
 			}
